@@ -172,12 +172,18 @@ func (c *c08Ctx) checkTPValue(x *TransportParameters, pers protocol.Perspective,
 			}
 			c.outcome("tp-" + pers.String() + "|value-not-parsed:" + c08ErrClass(err))
 		default:
-			if valid {
-				if d := c08TPDiff(x, p); d != "" {
-					c.fail("roundtrip-differs:transport-parameters."+d, "%s marshalled by the %s parses to %s (field %s)", c08TPString(x), pers, c08TPString(p), d)
-				}
+			// every lattice value is wire-representable (whole wire units), so whatever the
+			// parser accepts has to be the value that was encoded. For a value outside an RFC
+			// range that the statement does not list (valid == false, reject == ""), refusing
+			// it is fine, accepting it as a different (e.g. narrowed) value is not.
+			if d := c08TPDiff(x, p); d != "" {
+				c.fail("roundtrip-differs:transport-parameters."+d, "%s marshalled by the %s parses to %s (field %s)", c08TPString(x), pers, c08TPString(p), d)
 			}
-			c.outcome("tp-" + pers.String() + "|roundtrip")
+			if valid {
+				c.outcome("tp-" + pers.String() + "|roundtrip")
+			} else {
+				c.outcome("tp-" + pers.String() + "|roundtrip-of-unlisted-out-of-range-value")
+			}
 		}
 	})
 	return c08StripGrease(enc)
@@ -228,10 +234,17 @@ func c08TPFields() []c08TPField {
 		}}
 	}
 	idle := []uint64{5000, 16383, 16384, 1<<30 - 1, 1 << 30, uint64(math.MaxInt64) / 1000000}
-	udp := []uint64{1200, 16383, 16384, 1 << 30, 1<<62 - 1}
-	mad := []uint64{0, 1, 25, 63, 64, 16383}
+	// Fields with a range rule also take the narrowing aliases of the values next to the
+	// rule's edge (v + 2^8, v + 2^16, v + 2^32, see c08Aliases): a range check evaluated on
+	// a value that was converted to a smaller integer type decides them wrongly.
+	//   max_udp_payload_size >= 1200: the aliases of 0 and 1199 are legal values;
+	//   max_ack_delay < 2^14: the aliases of 0 and 25 are out of range (rule not listed in the
+	//     statement: refusing is not demanded, but acceptance as another value is a failure);
+	//   active_connection_id_limit >= 2: the aliases of 0 and 1 are legal values.
+	udp := append([]uint64{1199, 1200, 16383, 16384, 1 << 30, 1<<62 - 1}, c08Aliases(0, 1199)...)
+	mad := append([]uint64{0, 1, 25, 63, 64, 16383, 16384, 1 << 30, 1 << 40}, c08Aliases(0, 25)...)
 	exps := []uint8{0, 1, 3, 20, 21, 63, 64, 255}
-	acl := []uint64{2, 3, 63, 64, 16383, 16384, 1 << 30, 1<<62 - 1}
+	acl := c08ACLValues
 	dgs := []int64{-1, 0, 1, 63, 64, 16383, 16384, 1<<62 - 1}
 	mins := []int64{-1, 0, 1, 63, 64, 16383, 25000}
 	cidLens := c08CIDLens
@@ -248,12 +261,12 @@ func c08TPFields() []c08TPField {
 		}},
 		{name: "MaxUDPPayloadSize", n: len(udp), set: func(p *TransportParameters, i int) (bool, string) {
 			p.MaxUDPPayloadSize = protocol.ByteCount(udp[i])
-			return true, ""
+			return udp[i] >= 1200, ""
 		}},
 		{name: "MaxAckDelay", n: len(mad), set: func(p *TransportParameters, i int) (bool, string) {
 			p.MaxAckDelay = time.Duration(mad[i]) * time.Millisecond
 			// stays valid only while any min_ack_delay is <= max_ack_delay (checked by caller)
-			return true, ""
+			return mad[i] < 1<<14, ""
 		}},
 		{name: "AckDelayExponent", n: len(exps), set: func(p *TransportParameters, i int) (bool, string) {
 			p.AckDelayExponent = exps[i]
@@ -272,7 +285,7 @@ func c08TPFields() []c08TPField {
 		}},
 		{name: "ActiveConnectionIDLimit", n: len(acl), set: func(p *TransportParameters, i int) (bool, string) {
 			p.ActiveConnectionIDLimit = acl[i]
-			return true, ""
+			return acl[i] >= 2, ""
 		}},
 		{name: "MaxDatagramFrameSize", n: len(dgs), set: func(p *TransportParameters, i int) (bool, string) {
 			p.MaxDatagramFrameSize = protocol.ByteCount(dgs[i])
@@ -603,10 +616,8 @@ func (c *c08Ctx) checkTicketTPValue(x *TransportParameters, valid bool, reject s
 			}
 			c.outcome("tp-ticket|value-not-parsed:" + c08ErrClass(err))
 		default:
-			if valid {
-				if d := c08TicketTPDiff(x, p); d != "" {
-					c.fail("roundtrip-differs:ticket-transport-parameters."+d, "%s marshalled for a session ticket parses to %s (field %s)", c08TPString(x), c08TPString(p), d)
-				}
+			if d := c08TicketTPDiff(x, p); d != "" {
+				c.fail("roundtrip-differs:ticket-transport-parameters."+d, "%s marshalled for a session ticket parses to %s (field %s)", c08TPString(x), c08TPString(p), d)
 			}
 			c.outcome("tp-ticket|roundtrip")
 		}
